@@ -9,10 +9,15 @@ import (
 
 func init() {
 	register("C12", []string{".", "./record", "./objstorage/objstorageprovider", "./internal/manifest", "./vfs/atomicfs"}, runC12)
-	propExplain["C12"] = "Decides ordering clauses of C12: in DB.flush1 the flushed memtables are removed from the queue, the read state is refreshed and the flushed channels are closed only through the nil-error edge of the MANIFEST update, which itself follows the (synced) write of the tables; Flush waits for the flushed channel captured before the memtable rotation; LogWriter.Close waits for the flush loop and syncs before closing; the object provider publishes as 'synced' only a change counter it captured BEFORE the directory sync started (a creation racing with the sync must be synced again). Shares C10.O3 (tables synced before named) and C22 (MANIFEST protocol). Does not cover NoSyncOnClose configurations."
+	propExplain["C12"] = "Decides ordering clauses of C12: in DB.flush1 the flushed memtables are removed from the queue, the read state is refreshed and the flushed channels are closed only through the nil-error edge of the MANIFEST update, which itself follows the (synced) write of the tables; Flush waits for the flushed channel captured before the memtable rotation; LogWriter.Close waits for the flush loop and syncs before closing; the object provider publishes as 'synced' only a change counter it captured BEFORE the directory sync started (a creation racing with the sync must be synced again). Shares C10.O3 (tables synced before named), C22 (MANIFEST protocol) and C10.E1 (no error of a durability call — closing the old WAL at a rotation, syncing, creating the next log — is dropped). Does not cover NoSyncOnClose configurations."
 }
 
 func runC12(c *Ctx) {
+	// C10.E1 shared: "Flush/Close returned nil" means something only if no error of a durability
+	// call on the way (closing the old WAL at a rotation, syncing, creating the next log) is dropped.
+	if n := c.ErrFlow("C10.E1", durabilityCallees(c, "C10.E1"), enginePkg, c10ErrExceptions); n < 50 {
+		c.Unresolved("C10.E1", fmt.Sprintf("only %d durability call sites found", n))
+	}
 	// C12.O1
 	if fn := c.Fn("C12.O1", "p.(*DB).flush1"); fn != nil {
 		ingestKind, _ := c.ConstInt("p", "compactionKindIngestedFlushable")
